@@ -162,7 +162,7 @@ PROFILES.update({
              "kcall_deaths": 0.6, "die_untracked": 0.3,
              "cmds": ["start", "stop", "incr", "decr", "kill", "restart", "list", "numprocesses", "rm"],
              "norespawn": True},
-    "overlap": {"Gs": [0.2, 0.3, 0.5, 1.0], "cmds": ["kill", "kill", "signal", "stop", "restart", "reload", "start", "incr", "decr", "decr", "set_np", "status", "list",
+    "overlap": {"sigstop": 0.5, "Gs": [0.2, 0.3, 0.5, 1.0], "cmds": ["kill", "kill", "signal", "stop", "restart", "reload", "start", "incr", "decr", "decr", "set_np", "status", "list",
                          "numprocesses", "get", "globaloptions", "listsockets", "options", "stats"], "stubborn": 0.6, "partial": 0.5, "steps": 20},
     "events": {"cmds": ["incr", "decr", "set_np", "reload", "kill", "stop", "start", "restart", "status", "status", "signal", "signal"],
                "kcall_deaths": 0.5, "sigsoft": 0.6, "sigrec": 0.6, "fork": 0.15, "steps": 30},
@@ -504,10 +504,39 @@ def term_profile(seed):
             "script": s}
 
 
+def _jobcontrol(seed):
+    """template: workers are STOPPED (job control: SIGSTOP / SIGTSTP through a `signal` request), periodic checks and
+    requests go on while they are, some are continued later.  A stopped worker is a live worker."""
+    import random
+    rng = random.Random(seed)
+    ws = [{"name": "w1", "np": rng.choice([1, 2, 3]), "G": rng.choice([0.2, 0.3]), "W": 0.0},
+          {"name": "w2", "np": 1, "G": 0.2, "W": 0.0}]
+    s = [{"op": "boot"}, {"op": "tick", "n": rng.randint(3, 8)}]
+    props = {"name": "w1", "signum": rng.choice([int(scenario._signal.SIGSTOP), "stop", "SIGTSTP", "tstp", "SIGSTOP"])}
+    if rng.random() < 0.4:
+        props["pidsel"] = rng.randint(0, 2)
+    s.append({"op": "req", "cmd": "signal", "props": props})
+    for _ in range(rng.randint(15, 30)):
+        s.append({"op": "tick", "n": 1})
+        r = rng.random()
+        if r < 0.15:
+            s.append({"op": "req", "cmd": rng.choice(["status", "list", "numprocesses"]), "props": {"name": rng.choice(["w1", "w2"])}})
+        elif r < 0.2:
+            s.append({"op": "req", "cmd": "signal", "props": {"name": "w1", "signum": rng.choice(["cont", int(scenario._signal.SIGCONT)])}})
+        elif r < 0.27:
+            s.append({"op": "req", "cmd": rng.choice(["incr", "decr", "reload", "stop", "restart"]),
+                      "props": {"name": "w1", "waiting": rng.random() < 0.5}})
+    s.append({"op": "end", "xprobe": True, "passes": 2})
+    return {"seed": seed, "watchers": ws, "check_delay": rng.choice([0.5, 1.0]), "warmup_delay": 0.0,
+            "stubborn": [], "obeys": [True], "instant_death": False, "script": s}
+
+
 def overlap_profile(seed):
     """Random overlapping requests, plus (every 3rd seed) a template measuring completion time: several stubborn workers,
     a sizeable grace period, one exclusive operation (stop / restart / rm / quit / decr / reload), nothing else."""
     import random
+    if seed % 6 == 1:
+        return _jobcontrol(seed)
     if seed % 3 != 0:
         return scenario.gen_scenario(seed, _OVERLAP_BASE)
     rng = random.Random(seed)
